@@ -121,6 +121,8 @@ func checkProducerConsumer(r *Run, prog *Program, a *Anchors, ga *GA, pfx string
 			}
 			ps := NewPathSim(prog)
 			oc := oc
+			delegates := dispatchDelegates(prog, a)
+			ps.Inline = func(c *ssa.Function) bool { return delegates[c] } // a dispatcher whose body is a method it delegates to
 			ps.Seed = func(st *pstate) {
 				st.dyn[pNode.Key()] = dyn
 				if oc != nil {
